@@ -19,6 +19,7 @@ import (
 type sField struct {
 	Name string `json:"n"`
 	Type string `json:"t"` // int64 string float64 bool []int64 []string *S<k> S<k>
+	Tag  string `json:"tag,omitempty"` // json name given in a gotags: option of the declaration
 }
 
 type sOp struct {
@@ -55,7 +56,10 @@ func sn(k int) string { return fmt.Sprintf("%s%d", c17Prefix, k) }
 
 var c17FieldNames = []string{"A", "B", "C", "D"}
 var c17BaseTypes = []string{"int64", "string", "float64", "bool", "[]int64", "[]string"}
-var c17Kinds = []string{"int", "char", "float", "bool", "string", "ints", "strs", "empty", "nil", "ptr0", "ptr1", "inst0", "inst1", "inst2", "nilarr", "listarr"}
+// (mixed: an array of ints and strings; intsplus: an int array that a string was appended to - its cached type still
+// says ints; typeobj: a type itself, not a value of it; keysi/keyss: the key list of a hash, an array like any other)
+var c17Kinds = []string{"int", "char", "float", "bool", "string", "ints", "strs", "empty", "nil", "ptr0", "ptr1", "inst0", "inst1", "inst2", "nilarr", "listarr",
+	"mixed", "intsplus", "typeobj", "keysi", "keyss"}
 
 func typeSrc(t string) string {
 	switch {
@@ -88,9 +92,9 @@ func fits(kind, t string) bool {
 	case "bool":
 		return kind == "bool"
 	case "[]int64":
-		return kind == "ints" || kind == "empty"
+		return kind == "ints" || kind == "empty" || kind == "keysi"
 	case "[]string":
-		return kind == "strs" || kind == "empty"
+		return kind == "strs" || kind == "empty" || kind == "keyss"
 	}
 	if strings.HasPrefix(t, "*S") {
 		return kind == "ptr"+t[2:]
@@ -148,6 +152,9 @@ func classifyVal(v zygo.Sexp) string {
 		k := ""
 		for _, e := range x.Val {
 			ek := classifyVal(e)
+			if ek == "nil" && len(x.Val) > 1 {
+				continue // nil is accepted wherever a value is (the language says so for fields, so for elements)
+			}
 			if k == "" {
 				k = ek
 			} else if k != ek {
@@ -237,6 +244,14 @@ func execC17(body json.RawMessage) *kernel.Result {
 			return "[(quote (1 2)) 3]"
 		case "mixed":
 			return `[1 "a"]`
+		case "intsplus":
+			return `(append [1 2] "z")`
+		case "typeobj":
+			return "int64"
+		case "keysi":
+			return "(keys (hash 5 1 6 2))"
+		case "keyss":
+			return `(keys (hash "k" 1))`
 		}
 		if strings.HasPrefix(kind, "ptr") || strings.HasPrefix(kind, "inst") {
 			isPtr := strings.HasPrefix(kind, "ptr")
@@ -382,7 +397,11 @@ func execC17(body json.RawMessage) *kernel.Result {
 						okRefs = false
 					}
 				}
-				fmt.Fprintf(&sb, "(field %s: %s e:%d) ", f.Name, typeSrc(f.Type), i)
+				if f.Tag != "" {
+					fmt.Fprintf(&sb, "(field %s: %s e:%d gotags:`json:\"%s\" msg:\"%s\"`) ", f.Name, typeSrc(f.Type), i, f.Tag, f.Tag)
+				} else {
+					fmt.Fprintf(&sb, "(field %s: %s e:%d) ", f.Name, typeSrc(f.Type), i)
+				}
 				def[f.Name] = f.Type
 			}
 			sb.WriteString("])")
@@ -422,7 +441,7 @@ func execC17(body json.RawMessage) *kernel.Result {
 					allFit = false
 				}
 				if op.Op == "decode" {
-					js := map[string]string{"int": "7", "float": "2.5", "bool": "true", "string": `\"s\"`, "ints": "[1, 2]", "strs": `[\"a\", \"b\"]`, "empty": "[]", "nil": "null"}[in.Kind]
+					js := map[string]string{"int": "7", "float": "2.5", "bool": "true", "string": `\"s\"`, "ints": "[1, 2]", "strs": `[\"a\", \"b\"]`, "empty": "[]", "nil": "null", "mixed": `[1, \"a\"]`, "keysi": "[5, 6]", "keyss": `[\"k\"]`}[in.Kind]
 					if strings.HasPrefix(in.Kind, "inst") {
 						// a nested record carrying its own type name; sometimes with a member of the wrong kind / not declared
 						var k int
@@ -462,6 +481,15 @@ func execC17(body json.RawMessage) *kernel.Result {
 			}
 			var text string
 			if op.Op == "decode" {
+				if op.Src == 1 && len(op.Inits) > 0 {
+					// the encoder's own key-order member, as in anything that (json x) wrote
+					var ko []string
+					for _, in := range op.Inits {
+						ko = append(ko, fmt.Sprintf(`\"%s\"`, in.Field))
+					}
+					parts = append(parts, fmt.Sprintf(`\"zKeyOrder\":[%s]`, strings.Join(ko, ", ")))
+					res.Probe("decode-with-key-order")
+				}
 				text = fmt.Sprintf(`(def %s (unjson (raw "{\"Atype\":\"%s\"%s}")))`, vname(op.Var), sn(op.Struct), prefixComma(parts))
 				if op.Msgp {
 					text = fmt.Sprintf(`(def %s (unmsgpack (msgpack (unjson (raw "{\"Atype\":\"%s\"%s}")))))`, vname(op.Var), sn(op.Struct), prefixComma(parts))
@@ -490,6 +518,22 @@ func execC17(body json.RawMessage) *kernel.Result {
 				}
 				if !allFit || !allKnown {
 					res.Probe("bad-construction-accepted")
+				}
+				// a member that was given and refused must have been reported: it cannot just be missing from an
+				// instance that was handed out without an error
+				if hh, isInst := readInst(e, op.Var); isInst {
+					for _, in := range op.Inits {
+						present := false
+						for _, k := range hh.KeyOrder {
+							if ks, isSym := k.(*zygo.SexpSymbol); isSym && ks.Name() == in.Field {
+								present = true
+							}
+						}
+						if !present {
+							fail("R-rejected", op.Op+"-dropped", "step %d: %s succeeded, but the member %s (a %s) that it was given is missing from the instance %s: refused without an error", step, text, in.Field, in.Kind, show(hh))
+							return res
+						}
+					}
 				}
 			}
 			if !checkAll(step, op.Op) {
@@ -541,6 +585,11 @@ func execC17(body json.RawMessage) *kernel.Result {
 			case "strkey":
 				// the field named by a string instead of a symbol
 				text = fmt.Sprintf("(hset %s %q %s)", target, op.Field, src)
+			case "elem":
+				// a write into the array a slice field holds, not to the field itself
+				text = fmt.Sprintf("(aset (hget %s %s:) 0 %s)", target, op.Field, src)
+			case "elemidx":
+				text = fmt.Sprintf("{%s.%s[0] = %s}", target, op.Field, src)
 			default:
 				text = fmt.Sprintf("(hset %s %s: %s)", target, op.Field, src)
 			}
@@ -553,6 +602,10 @@ func execC17(body json.RawMessage) *kernel.Result {
 			}
 			if op.Route == "strkey" {
 				declared = false // fields are named by symbols; a string key names no declared field
+			}
+			if op.Route == "elem" || op.Route == "elemidx" {
+				// judged by the invariant check only (the element either fits the slice or the write is refused)
+				t, declared = "", false
 			}
 			wellTyped := declared && fits(op.Kind, t)
 			res.Sig(fmt.Sprintf("%s|%s|%s->%s|ok=%v", op.Op, op.Route, op.Kind, t, o.OK()))
@@ -666,9 +719,33 @@ func genFields(r *kernel.RNG, self int) []sField {
 				}
 			}
 		}
-		fs = append(fs, sField{Name: c17FieldNames[i], Type: t})
+		f := sField{Name: c17FieldNames[i], Type: t}
+		if r.Chance(0.3) {
+			// the declaration's own options name the field differently for the Go and wire side
+			f.Tag = r.Pick([]string{strings.ToLower(f.Name), strings.ToLower(f.Name) + ",omitempty", "w_" + f.Name})
+		}
+		fs = append(fs, f)
 	}
 	return fs
+}
+
+// undeclaredName: a member name the struct does not declare - an unrelated one, or one that looks like a declared
+// field (other case, the field's wire name from its gotags, a suffix)
+func undeclaredName(r *kernel.RNG, fs []sField) string {
+	if len(fs) == 0 || r.Chance(0.3) {
+		return "Zed"
+	}
+	f := fs[r.Intn(len(fs))]
+	var c []string
+	c = append(c, strings.ToLower(f.Name), f.Name+"x")
+	if f.Tag != "" {
+		tag := f.Tag
+		if i := strings.Index(tag, ","); i >= 0 {
+			tag = tag[:i]
+		}
+		c = append(c, tag, tag, tag)
+	}
+	return r.Pick(c)
 }
 
 func genC17(r *kernel.RNG, tier string, i int) interface{} {
@@ -734,8 +811,8 @@ func genC17(r *kernel.RNG, tier string, i int) interface{} {
 					op.Inits = append(op.Inits, sInit{Field: f.Name, Kind: pickKind(e, f.Type)})
 				}
 			}
-			if r.Chance(0.1) {
-				op.Inits = append(op.Inits, sInit{Field: "Zed", Kind: "int"})
+			if r.Chance(0.12) {
+				op.Inits = append(op.Inits, sInit{Field: undeclaredName(r, declared[op.Struct]), Kind: r.Pick([]string{"int", "string", "int"})})
 			}
 			if len(op.Inits) > 0 && r.Chance(0.15) {
 				// the same field given twice, the second time with an arbitrary kind
@@ -762,10 +839,17 @@ func genC17(r *kernel.RNG, tier string, i int) interface{} {
 			f := fs[r.Intn(len(fs))]
 			op.Field = f.Name
 			op.Kind = pickKind(e, f.Type)
-			if r.Chance(0.08) {
-				op.Field = "Zed"
+			if r.Chance(0.1) {
+				op.Field = undeclaredName(r, fs)
+				if r.Chance(0.5) {
+					op.Kind = r.Pick(c17Kinds)
+				}
 			}
 			op.Route = r.Pick([]string{"hset", "dot", "infix", "index", "hset", "strkey"})
+			if strings.HasPrefix(f.Type, "[]") && op.Field == f.Name && r.Chance(0.25) {
+				op.Route = r.Pick([]string{"elem", "elemidx"})
+				op.Kind = r.Pick([]string{"int", "string", "float", "nil", "int", "string"})
+			}
 			if op.Op == "write" {
 				// a nested path through a struct-typed field (set or unset), to a declared or undeclared leaf
 				for _, nf := range fs {
